@@ -75,11 +75,15 @@ class Wire:
         self.on_client_close: Callable[[], None] | None = None
 
     # --- peer side
-    def feed(self, data: bytes) -> None:
-        if self.eof_sent or self.broken or not data:
-            return
+    def feed(self, data: bytes) -> bool:
+        """Deliver bytes to the client; False if the connection is already gone
+        (peer sent EOF/reset, or the client closed its side)."""
+        if self.eof_sent or self.broken or not data or self.writer.is_closing() or self.reader.at_eof() \
+                or getattr(self.reader, "_eof", False):
+            return False
         self.fed.append((now_ms(), bytes(data)))
         self.reader.feed_data(data)
+        return True
 
     def feed_split(self, data: bytes, cuts: list[int]) -> None:
         """Feed `data` in segments cut at the given offsets; between segments the
